@@ -29,6 +29,8 @@ fn space(b: Expr, k: usize) -> ForestSpace {
         Stmt::Row(vec![l(0), l(0), p(ite(lit(1), r(), bin(BinOp::Add, r(), lit(1))))]),
         Stmt::Row(vec![Entry::X, l(0), p(ite(lit(0), r(), lit(7)))]),
         Stmt::Row(vec![Entry::C, l(1), p(name("a"))]),
+        Stmt::Row(vec![p(bin(BinOp::Div, r(), random(lit(3)))), p(bin(BinOp::Rem, random(lit(3)), r())), l(0)]),
+        Stmt::Row(vec![l(0), p(bin(BinOp::Lt, random(lit(3)), r())), p(bin(BinOp::Sub, r(), bin(BinOp::Mul, random(lit(3)), random(lit(10)))))]),
         Stmt::Let("a".into(), r()),
         Stmt::Let("a".into(), bin(BinOp::Add, name("a"), r())),
         Stmt::Repeat(random(lit(3)), vec![l(0), l(0), p(name("n"))]),
@@ -108,8 +110,14 @@ pub fn run(tier: Tier, seed: u64) -> i32 {
                     let values: Vec<i64> = obs.draws.iter().filter_map(|d| if let DrawEvent::Draw { value, .. } = d { Some(*value) } else { None }).collect();
                     let log_bounds: Vec<i64> = obs.draws.iter().filter_map(|d| if let DrawEvent::Draw { bound, .. } = d { Some(*bound) } else { None }).collect();
                     // (i) range
-                    if let Some(DrawEvent::Draw { bound, value }) = obs.draws.iter().find(|d| matches!(d, DrawEvent::Draw { bound, value } if !(0 <= *value && value < bound))) {
+                    if let Some(DrawEvent::Draw { bound, value, .. }) = obs.draws.iter().find(|d| matches!(d, DrawEvent::Draw { bound, value, .. } if !(0 <= *value && value < bound))) {
                         fail(st, "draw out of range", format!("random({bound}) drew {value}"), vec!["0 <= r < n".into()]);
+                        continue;
+                    }
+                    // every draw of a run comes from the run's one generator
+                    let gens: Vec<usize> = obs.draws.iter().filter_map(|d| if let DrawEvent::Draw { generator, .. } = d { Some(*generator) } else { None }).collect();
+                    if let Some(pos) = gens.iter().position(|g| *g != gens[0]) {
+                        fail(st, "draw from another generator", format!("generator: draw number {pos} was taken from a different generator object than the first draw of the run (a copy of the generator does not advance the run's generator)"), vec!["all draws from the run's generator".into()]);
                         continue;
                     }
                     // (ii) the reference fed the logged values reproduces the run and consumes the log exactly
